@@ -14,14 +14,6 @@ From TK Require Import Conn_Model Conn_Spec Conn_Proof_Graph Conn_Proof_Dfs
      Conn_Proof_Strong Conn_Proof_Warshall Conn_Proof Conn_Proof_Main.
 Import ListNotations.
 
-Definition tie_free (dist : nat -> nat -> Z) (N : nat) : Prop :=
-  forall i a b, i < N -> a < N -> b < N -> a <> i -> b <> i -> a <> b -> dist i a <> dist i b.
-
-Definition tie_free_b (dist : nat -> nat -> Z) (N : nat) : bool :=
-  forallb (fun i => forallb (fun a => forallb (fun b =>
-     (a =? i) || (b =? i) || (a =? b) || negb (dist i a =? dist i b)%Z)
-     (seq 0 N)) (seq 0 N)) (seq 0 N).
-
 Lemma tie_free_b_sound : forall dist N, tie_free_b dist N = true -> tie_free dist N.
 Proof.
   unfold tie_free_b, tie_free. intros dist N H i a b Hi Ha Hb Hai Hbi Hab.
